@@ -110,7 +110,20 @@ type WTClient struct {
 	Dialer  *wt.Dialer
 	Session *wt.Session
 	Conn    *webtrans.Conn
+	Stream  wt.Stream
 	Status  int
+}
+
+// WriteRaw writes bytes on the stream as they are (hand-made frames).
+func (c *WTClient) WriteRaw(b []byte) error {
+	_, err := c.Stream.Write(b)
+	return err
+}
+
+// CancelStream resets both directions of the stream; the session stays.
+func (c *WTClient) CancelStream() {
+	c.Stream.CancelRead(0)
+	c.Stream.CancelWrite(0)
 }
 
 // DialWT opens a session and, unless noStream, a bidirectional stream wrapped in the
@@ -134,6 +147,7 @@ func (q *QuicWorld) DialWT(noStream bool) (*WTClient, error) {
 	if err != nil {
 		return c, fmt.Errorf("open stream: %w", err)
 	}
+	c.Stream = st
 	c.Conn = webtrans.NewConn(sess, st, false, 0, 0, nil, nil, nil)
 	return c, nil
 }
